@@ -341,7 +341,10 @@ func c12witness(c *Check, env *Env, script *Script, rng *rand.Rand) bool {
 		return false
 	}
 	defer cl.Close()
-	cl.Send(concatReqs(p))
+	// in two or three pieces: the proxy has to park the incomplete head in a buffer (one
+	// that a hostile connection may have used a moment ago)
+	raw := concatReqs(p)
+	cl.SendChunks(raw, []int{1 + rng.Intn(minInt(len(raw)-1, 40)), 1 + rng.Intn(20)}, 2*time.Millisecond)
 	if !cl.WaitReplies(len(p), 5*time.Second) {
 		for i := 0; i < 20 && env.P.Alive(); i++ {
 			time.Sleep(50 * time.Millisecond)
